@@ -79,4 +79,5 @@ let init () =
          "ok r=" ^ String.concat "," rs)
     | _ -> "bad-args") in
   register "simreply" simreply;
-  register "simreplym" simreply
+  register "simreplym" simreply;
+  register "simreplyf" simreply
